@@ -41,6 +41,18 @@ def run(ctx):
     summ2, _, _ = pscommon.run_mbt(ctx, "MC_PSProg", cl, "pslimits", base_heap="FreshHeap", workers=1, replay_args=("-count",))
     pscommon.absorb(ctx, summ2, "vh replay-ps (MC_PSProg limits)", "PSMachine!EnterProc/CallProc/Guarded, PSOps!NewContainer")
     ctx.extra["limit_shapes"] = summ2["vectors"]
+    # (b'') the nesting limit ends recursion that is not in tail position whatever kind of object the control
+    # operator was given to execute (PSShapes, shapes of DepthBounded; each in a child process)
+    import os
+    d = ctx.specdir()
+    cfg = ('CONSTANTS\n  Sizes = {1}\n  Exps = {0}\n  DepthOnly = TRUE\n  OutFile = "depthshapes.ndjson"\n'
+           'INIT Init\nNEXT Next\nINVARIANT Emit\nCHECK_DEADLOCK FALSE\n')
+    ctx.tlc("PSShapes", cfg, label="psshapes-depth", workers=1)
+    s5 = ctx.vh_json("run-shapes", os.path.join(d, "depthshapes.ndjson"), timeout=1200)
+    if s5["vectors"] < 5:
+        raise core.Broken("depth-bounded shapes: %d vectors" % s5["vectors"])
+    pscommon.absorb(ctx, s5, "vh run-shapes (PSShapes, depth-bounded recursion)", "PSShapes!DepthBounded")
+    ctx.extra["depth_bounded_shapes"] = s5["vectors"]
     # (b') the dictionary-stack limit also holds inside an eexec section entered at the limit (plaintext 14)
     from checks import c05
     c05.eexec_layouts(ctx, ctx.tier == "quick", only=(14, "eexec[budget]"), how_prefix="limits and budget inside eexec: ", count=True)
